@@ -16,7 +16,7 @@ RULE = ("seeded plans: 2-4 committers x 1-3 commits over {append, two-append txn
         "(+append), delete_snapshot, property set} on a table pre-seeded with 0-3 snapshots; topology "
         "separate/shared/mixed handles; backend local/CAS-S3; clock fine/coarse/frozen; scheduler "
         "random(p)/PCT(d)/default at seam granularity, plus a targeted hold parking one committer just before the commit "
-        "lock until another has committed (guaranteed stale base), and - for threads sharing a handle - line-level "
+        "lock until another has committed (guaranteed stale base), in some runs one committing process killed at a seeded storage call, and - for threads sharing a handle - line-level "
         "pre-emption (sys.settrace: any line of datashard code is a switch point with probability 0.2-5 %). Distinct = SHA-1 of the (actor, op, path-class, outcome) "
         "sequence of write/lock/pointer events; non-trivial = the run had >= 1 OCC retry, CAS conflict, lock "
         "contention or equal-timestamp commit AND >= 2 pointer flips by different actors.")
@@ -25,7 +25,7 @@ ASSUMPTIONS = common.BASE_ASSUMPTIONS + [
 ]
 COMPONENTS = common.COMPONENTS
 EXPECT_PROBES = ["commit_retry", "cas_conflict", "flock_contended", "rlock_contended", "equal_ms_commit", "flip",
-                 "line_preemption", "hold_engaged"]
+                 "line_preemption", "hold_engaged", "committer_died"]
 CLAUSES = None  # every refinement clause is part of "the final table equals applying exactly the acked commits"
 
 
@@ -81,6 +81,11 @@ def gen(rng: random.Random, tier: str, idx: int) -> dict:
             "policy": common.gen_policy(rng), "faults": []}
     if rng.random() < 0.15:
         plan["retention"] = rng.randint(1, 3)
+    if topo == "separate" and rng.random() < 0.12:
+        # one committing PROCESS dies at a seeded storage call: its un-acknowledged commit may or may not be reflected
+        # (C03), everything the others acknowledged must still be (local: the kernel drops its flock; S3: the others
+        # may time out on the orphaned lock object, which is a raise, not a lost update)
+        plan["faults"].append({"kind": "crash", "proc": f"p{rng.randrange(nact)}", "pstep": rng.randint(5, 160)})
     if topo in ("shared", "mixed") and rng.random() < 0.35:
         # line-level pre-emption: threads sharing a handle may be switched between ANY two lines of datashard code,
         # not only at storage calls (in-memory state races)
@@ -147,6 +152,8 @@ def execute(plan: dict, scratch: str, replay: Optional[dict] = None) -> dict:
                 ph.sim.probe("equal_ms_commit")
     elif ph.sim.outcome == "deadlock":
         violations.append({"clause": "L.deadlock", "msg": "all committers blocked forever"})
+    if ph.sim.fired.get("crash"):
+        ph.sim.probe("committer_died")
     flippers = {f["actor"] for f in w.flips}
     p = ph.sim.probes
     nontrivial = len(flippers) >= 2 and (p["commit_retry"] + p["cas_conflict"] + p["flock_contended"]
